@@ -20,7 +20,7 @@ use crate::util::*;
 pub const PROP: Prop = Prop {
     id: "C07",
     level: "fault_enumeration",
-    rule: "values from G_value (with a number- and byte-vector-heavy variant) x printer option sets (default plus sampled from all 576) x sink schedules: every write accepts at most k bytes for k = 1,2,3,5, a generated cycle of per-call limits, zero-byte acceptance, Interrupted results, and a hard error injected at EVERY output offset 0..=len of the text (exhaustive per value); six entry points (to_writer, to_writer_custom, Printer::new, Printer::with_options, Printer::with_formatter, Display into a failing fmt::Write); oracle: reference text from to_string(_custom); non-trivial = text of at least 8 bytes containing a number, byte vector or escape, under a schedule that splits at least one write call; distinct by digest of (value, options, schedule)",
+    rule: "values from G_value (with a number- and byte-vector-heavy variant) x printer option sets (default plus sampled from all 576) x sink schedules: every write accepts at most k bytes for k = 1,2,3,5, a generated cycle of per-call limits, zero-byte acceptance, Interrupted results, and a hard error injected at EVERY output offset 0..=len of the text (exhaustive per value); the sink implements both write and a native write_vectored under the same limits, so a short acceptance may end inside any slice of a vectored call; six entry points (to_writer, to_writer_custom, Printer::new, Printer::with_options, Printer::with_formatter, Display into a failing fmt::Write); oracle: reference text from to_string(_custom); non-trivial = text of at least 8 bytes containing a number, byte vector or escape, under a schedule that splits at least one write call; distinct by digest of (value, options, schedule)",
     assumptions: &[
         "the reference text is to_string_custom(v, P), whose agreement with the other non-faulty entry points is C01's clause",
         "Interrupted results are only required to give either Ok with the exact text or Err with a prefix delivered (the statement does not speak about them)",
@@ -73,8 +73,9 @@ impl Sink {
     }
 }
 
-impl Write for Sink {
-    fn write(&mut self, data: &[u8]) -> io::Result<usize> {
+impl Sink {
+    /// One write call offering `total` bytes: how many are accepted.
+    fn admit(&mut self, total: usize) -> io::Result<usize> {
         self.calls += 1;
         if self.interrupt_every > 0 && self.calls % self.interrupt_every == 0 {
             return Err(io::Error::new(io::ErrorKind::Interrupted, "injected interrupt"));
@@ -86,11 +87,35 @@ impl Write for Sink {
             }
             cap = cap.min(off - self.buf.len());
         }
-        let n = cap.min(data.len());
-        if n < data.len() {
+        let n = cap.min(total);
+        if n < total {
             self.split = true;
         }
+        Ok(n)
+    }
+}
+
+impl Write for Sink {
+    fn write(&mut self, data: &[u8]) -> io::Result<usize> {
+        let n = self.admit(data.len())?;
         self.buf.extend_from_slice(&data[..n]);
+        Ok(n)
+    }
+    /// Native vectored I/O (like `&mut [u8]`, `Cursor`, files and sockets): the
+    /// same per-call limit applies to the concatenation of the slices, so a
+    /// short acceptance may end inside any of them.
+    fn write_vectored(&mut self, bufs: &[io::IoSlice<'_>]) -> io::Result<usize> {
+        let total: usize = bufs.iter().map(|b| b.len()).sum();
+        let n = self.admit(total)?;
+        let mut left = n;
+        for b in bufs {
+            let k = left.min(b.len());
+            self.buf.extend_from_slice(&b[..k]);
+            left -= k;
+            if left == 0 {
+                break;
+            }
+        }
         Ok(n)
     }
     fn flush(&mut self) -> io::Result<()> {
